@@ -402,3 +402,39 @@ pub fn record(seed: u64, n: usize, out_path: &str) {
     }
     out.finish();
 }
+
+
+/// A real voice whose duration tree was replaced by a chain of n question nodes (bin/htsvoice.py chain_voice): the PDF index
+/// selected for each label of the table must be what the specification says (1 if the question holds, n + 1 otherwise), and
+/// the first mean handed to synthesis must be that index (PDF k was written with first mean k).
+pub fn chain(voice_path: &str, labels_path: &str, expect_path: &str, out_path: &str) {
+    let labels = parse_labels(labels_path);
+    let expect: Value = serde_json::from_str(&std::fs::read_to_string(expect_path).unwrap_or_else(|e| die(&e.to_string()))).unwrap();
+    let mut out = Out::create(out_path);
+    let r = guarded(|| -> Result<(), (String, String)> {
+        let engine = Engine::load(&[voice_path]).map_err(|e| ("chain:load".to_string(), format!("a voice with a {}-node duration tree was rejected: {}", expect["n"], e)))?;
+        let voice = &engine.voices[0];
+        let m = jbonsai::model::Models::new(&labels, &engine.voices, engine.condition.get_interporation_weight());
+        let dur = m.duration();
+        let nstate = voice.metadata.num_states;
+        for (l, label) in labels.iter().enumerate() {
+            let want = vu(&expect["expect"][l]);
+            let got = voice.duration_model.get_index(2, label);
+            if got != (Some(2), Some(want)) {
+                return Err(("chain:index".into(), format!("label #{}: get_index = {:?}, the chain of {} nodes selects pdf {}", l + 1, got, expect["n"], want)));
+            }
+            let p = voice.duration_model.get_parameter(2, label);
+            if p.parameters[0].0 != want as f64 || dur[l * nstate].0 != want as f64 {
+                return Err(("chain:words".into(), format!("label #{}: first duration mean {} / {} but PDF {} holds {}", l + 1, p.parameters[0].0, dur[l * nstate].0, want, want)));
+            }
+        }
+        Ok(())
+    });
+    match r {
+        Ok(Ok(())) => {}
+        Ok(Err((k, m))) => out.line(&json!({"case": 0, "key": k, "msg": m})),
+        Err(p) => out.line(&json!({"case": 0, "key": format!("chain:panic:{}", p), "msg": p})),
+    }
+    out.line(&json!({"summary": {"cases": 1, "labels": labels.len()}}));
+    out.finish();
+}
